@@ -4,4 +4,5 @@ Extraction Language OCaml.
 Set Extraction Output Directory ".".
 Extraction "gen_model.ml" validate_object_path validate_interface validate_errorname validate_busname
   validate_membername objectpath_new marshal_header_names marshal_objectpath names_of utf8_bytes
-  objectpath_try_from_str objectpath_try_from_string objectpath_to_owned marshal_objectpath_typed.
+  objectpath_try_from_str objectpath_try_from_string objectpath_to_owned marshal_objectpath_typed
+  marshal_header_msg name_field_decoder objectpath_unmarshal unmarshal_param_objectpath validate_raw_objectpath.
